@@ -126,11 +126,11 @@ CLAIMED = {
         text='translate_address_v with the page tables = the symbolic memory array, TTBR0/1, TTBCR, DACR, SCTLR.{AFE,EE}, '
              'FCSE PID, PRRR/NMRR, address symbolic: PA(40 bit), NS, memory type/attributes or fault with DFSR.{FS,'
              'domain,WnR}/DFAR vs the B3 short-descriptor oracle; MMU off flat. Long-descriptor stage-1 walks (LPAE '
-             'configuration, TTBCR.EAE = 1): TTBR0/1 (40 bit), EPD0/1, MAIR0/1, every 64-bit descriptor and the address '
+             'configuration, TTBCR.EAE = 1, and the Hyp-mode stage 1): TTBR0/1 / HTTBR (40 bit), EPD0/1, MAIR0/1, every 64-bit descriptor and the address '
              'symbolic, T0SZ/T1SZ enumerated: TTBR selection, start level, table/block/page descriptors at levels 1-3, '
              'hierarchical table attributes, access flag, AP[2:1], PA(40 bit), NS, MAIR decode and shareability vs the '
              'B3.19.6 oracle; a walk succeeds exactly when the oracle reports no fault.',
-        ref='DESIGN.md 6/C15 and 14.8', note='TRE=1, no hardware AF update, no stage 2 / Hyp stage 1; long-descriptor '
+        ref='DESIGN.md 6/C15 and 14.8', note='TRE=1, no hardware AF update, no stage 2; long-descriptor '
                                     'fault reports end in a repository stub (only "faults here, nothing else changed" is '
                                     'claimed for them); quick fixes N / T0SZ,T1SZ pairs and injective remap / MAIR settings'),
     'C18': dict(
